@@ -383,6 +383,7 @@ def generate(run_seed, deep=False):
     np_star_faults(st["np_star"], ops)
     hash_twin_variation(st["hashtwin"], ops)
     warnings_variation(st["warnings"], ops)
+    population_scribble_variation(st["popscribble"], ops)
     return cfg, ops
 
 
@@ -513,6 +514,33 @@ def warnings_variation(f, ops):
                     m["spec"]["cov"] = enc(cov)
     for pos, state in plan[:k]:
         ops.insert(int(pos * (len(ops) + 1)), {"c": 0, "op": "py.warnings", "state": state})
+
+
+def population_scribble_variation(f, ops):
+    """In one run in twelve the caller asks a signature's long-lived LGANM for the population distribution
+    (sample(population=True), under the signature's own interventions or none), works in place on the mean and
+    covariance it was handed, and the signature is evaluated again afterwards: what the library handed out must not
+    be storage its later seeded samples are computed from.  Decided by a stream of its own, after generation."""
+    r, pick, which, own = f.random(), f.random(), f.random(), f.random() < 0.5
+    how = f.choice(["add", "zero", "shuffle"])
+    sigs = sorted({rec["sig"] for rec in ops if "sig" in rec and rec.get("api") == "lganm.sample"
+                   and rec.get("m", {}).get("id") and not rec.get("args", {}).get("population")})
+    if r >= 0.085 or not sigs:
+        return
+    sig = sigs[int(pick * len(sigs))]
+    idx = [i for i, rec in enumerate(ops) if rec.get("sig") == sig]
+    at = idx[1 + int(which * (len(idx) - 1))] if len(idx) > 1 else idx[0]
+    rec = copy.deepcopy(ops[at])
+    for key in ("sig", "nd", "between_nd", "relayout", "reordered", "posseed", "npints", "burst", "via"):
+        rec.pop(key, None)
+    rec["m"].pop("via", None)
+    a = rec["args"]
+    if not own:
+        a.update(do="omit", shift="omit", noise="omit")
+    a["population"] = True
+    rec.update(seed=None, on_shared=True, keep=True, c=0)
+    ops.insert(at, {"c": 0, "op": "out.scribble", "which": "last_kept", "how": how})
+    ops.insert(at, rec)
 
 
 def npints_variation(f, ops):
@@ -710,9 +738,11 @@ def execute(sempler, run_seed, ops, pristine_budget=4):
                     break
                 seen[d2] = b + 2
             w.probes["burst.unseeded_calls"] += 1
-        if op == "call" and out[0] == "ok" and sigkey(rec) is not None:
+        if op == "call" and out[0] == "ok" and (sigkey(rec) is not None or rec.get("keep")):
             w.kept.append(out[1])
             del w.kept[:-6]
+            if rec.get("keep"):
+                w.last_kept = out[1]
         w.record(rec, od)
         evs.append({"i": i, "rec": rec, "pre": pre, "od": od, "ok": out is not None and out[0] == "ok",
                     "sk": sigkey(rec), "err": repr(sorted(w.caller_err.items())) if w.caller_err else None,
@@ -724,9 +754,16 @@ def execute(sempler, run_seed, ops, pristine_budget=4):
 def scribble_output(w, rec):
     """In-place work of the caller on a returned object (incl. np.random.shuffle, a numpy random call)."""
     from .canon import arrays_of
-    if not w.kept:
-        raise Skip()
-    obj = w.kept[rec["which"] % len(w.kept)]
+    if rec["which"] == "last_kept":
+        obj = getattr(w, "last_kept", None)
+        if obj is None:
+            raise Skip()
+        w.last_kept = None
+        w.probes["caller.works_in_place_on_a_population_distribution"] += 1
+    else:
+        if not w.kept:
+            raise Skip()
+        obj = w.kept[rec["which"] % len(w.kept)]
     how = rec.get("how", "shuffle")
     done = False
     targets = list(arrays_of(obj))
@@ -955,7 +992,7 @@ REQUIRED_PROBES = ["pair.nontrivial", "pair.seed0", "pair.sep.reseed", "pair.sep
                                                      "nd:gen.dag_avg_deg", "pair.default_seed_argument_omitted",
                                                      "nd.separated_by_an_unseeded_library_call"]
 
-REQUIRED_PROBES = REQUIRED_PROBES + ["model.parameters_read_in_another_order", "pair.under_different_error_states_of_the_caller", "call.integers_as_numpy_scalars", "thread.calls_outside_main_thread", "fault.died_in_a_numpy_call(np.*)", "seed.given_as_Generator", "seed.given_as_BitGenerator", "filler.hash_twin_of_a_signature(-1 / -2)", "caller.changed_warnings_filters"]
+REQUIRED_PROBES = REQUIRED_PROBES + ["model.parameters_read_in_another_order", "pair.under_different_error_states_of_the_caller", "call.integers_as_numpy_scalars", "thread.calls_outside_main_thread", "fault.died_in_a_numpy_call(np.*)", "seed.given_as_Generator", "seed.given_as_BitGenerator", "filler.hash_twin_of_a_signature(-1 / -2)", "caller.changed_warnings_filters", "caller.works_in_place_on_a_population_distribution"]
 
 
 def simplify(op):
